@@ -66,6 +66,8 @@ def gen_cases(tier, seed):
             if sum(1 for d in nd if d == 0) >= 2 and any(d > 0 for d in nd):
                 for perm in itertools.permutations(outs):
                     cases.append(dict(prog=prog, outs=list(perm), seed=seed, light=True))
+    # more than 2**20 input scalars (added after a seeded change that aggregated very wide Jacobians block by block): one hand-built case
+    cases.append(dict(special="million-columns", prog=None, outs=None, seed=seed, light=True))
     # outputs that are themselves leaves (identity rows); only with explicit inputs (a leaf has no grad_fn to start discovery from)
     for scen, flags in (("S1", "all"), ("S2", "all"), ("S1", "L1off")):
         for depth in ((0, 1) if tier == "quick" else (0, 1, 2)):
@@ -96,7 +98,7 @@ def _configs(t, outs, leaves, m, light, leafout=False):
     for o in (orders[:1] + orders[-1:] if light else orders):
         cfgs.append((None, list(o), "const", None, "float64"))
     # (d) chunk sizes x Constant; aggregators; float32
-    for k in ([1, 2] if light else sorted({1, 2, m, m + 2})):
+    for k in (sorted({1, 2, max(1, m - 1)}) if light else sorted({1, 2, max(1, m - 1), m, m + 2})):
         cfgs.append((full, nat, "const", k, "float64"))
         if not light:
             cfgs.append((full[::-1], nat[::-1], "const", k, "float64"))
@@ -127,11 +129,52 @@ def _make_agg(name, m, dtype):
             "krum": lambda: A.Krum(0, 1)}[name]()
 
 
+def _run_million(case):
+    """W (1024 x 1025) and b (8,): 1 049 608 Jacobian columns, two objectives that conflict on W and agree on b. The deposited
+    gradients must be the slices of UPGrad / Constant applied to the WHOLE Jacobian (rows obtained from torch.autograd.grad)."""
+    import torch
+    from torchjd import backward
+    from torchjd.aggregation import Constant, UPGrad
+
+    viol, execs, outcomes = [], 0, set()
+    for aggname in ("upgrad", "const"):
+        for dtype in (torch.float64, torch.float32):
+            g = torch.Generator().manual_seed(5 + case["seed"] % 4)
+            W = torch.randn(1024, 1025, generator=g, dtype=dtype).mul_(0.05).requires_grad_()
+            b = torch.linspace(-1.0, 2.0, 8, dtype=dtype).requires_grad_()
+            x = torch.linspace(-1.0, 1.0, 1025, dtype=dtype)
+            h = torch.tanh(W @ x)
+            y1 = (h * h).sum() + 3.0 * (b * b).sum()
+            y2 = -(h.sum() ** 2) * 0.01 + (b * b).sum() + b.sum()
+            rows = [torch.cat([gr.reshape(-1) for gr in torch.autograd.grad(y, [W, b], retain_graph=True)]) for y in (y1, y2)]
+            J = torch.stack(rows)
+            agg = UPGrad() if aggname == "upgrad" else Constant(torch.tensor([3.0, -2.0], dtype=dtype))
+            exp = agg(J)
+            execs += 1
+            try:
+                backward([y1, y2], agg, inputs=[W, b])
+            except Exception as e:
+                viol.append(dict(sig=f"exception:{type(e).__name__}", msg=f"million-columns {aggname} {dtype}: {e!r}"[:400]))
+                continue
+            got = torch.cat([W.grad.reshape(-1), b.grad.reshape(-1)])
+            sc = float(exp.abs().max())
+            err = float((got - exp).abs().max()) / sc
+            tol = 1e-9 if dtype == torch.float64 else 1e-4
+            outcomes.add(f"million:{aggname}:{dtype}:{bool(float(J[0] @ J[1]) < 0)}")
+            if not (err <= tol):
+                viol.append(dict(sig="jacobian-or-slices-mismatch:million-columns", cls=f"million:{aggname}",
+                                 msg=f"backward over 1 049 608 input scalars, {aggname} {dtype}: deposited gradients differ from the slices of aggregator(J) "
+                                     f"by {err:.3g} (relative; b.grad={b.grad.tolist()[:3]}..., expected {exp[-8:].tolist()[:3]}...)"))
+    return dict(viol=viol, execs=execs, outcomes=sorted(outcomes), nontrivial=len(outcomes), margin=0.0, maxima={}, counters=dict(seam_hits=1, col_orders=1, configs=1))
+
+
 def run_case(case):
     import torch
     from torchjd import backward
     from mc.seams import RecordingAggregator, SetOrderSeam
 
+    if case.get("special") == "million-columns":
+        return _run_million(case)
     prog, outs, seed = case["prog"], case["outs"], case["seed"]
     t = P.Typed(prog)
     lv = P.leaf_values(t.shapes[: t.nleaves], seed)
